@@ -3,9 +3,9 @@ C09 — ChaCha20 matches RFC 8439 and is its own inverse.
 
 Model: EphVerif.ChaCha20 (Model/ChaCha20.lean, built on Generated/C09.lean).
 Spec : EphVerif.Spec.chacha20 / chacha20Block (Spec/ChaCha20.lean, RFC 8439 with its test vectors).
-Helper lemmas: Lemmas/C09Bits.lean, C09Block.lean, C09Apply.lean.
+Helper lemmas: Lemmas/C09Bits.lean, C09Block.lean, C09Apply.lean, C09Alias.lean.
 -/
-import EphVerif.Lemmas.C09Apply
+import EphVerif.Lemmas.C09Alias
 
 namespace EphVerif.C09
 open EphVerif EphVerif.ChaCha20
@@ -127,6 +127,45 @@ theorem length (key nonce : List UInt8) (counter : UInt32) (input : List UInt8) 
     (ChaCha20.apply key nonce input counter).length = input.length := by
   rw [ChaCha20.apply, applyInto_eq, List.length_mapIdx]
 
+/-! ## in-place / aliased use (the input span points into the output vector) -/
+
+/-- (T) `ChaCha20::apply` brings the output to length with `output.resize(input.size())`: the old
+contents survive. (Re-initialising instead — `assign(n, 0)`, `clear(); resize(n)` — would wipe an
+aliased input before it is read.) -/
+theorem gen_outputPrep : Gen.C09.outputPrep = 0 := by decide
+
+theorem prepare_eq_resize (out : Array UInt8) (n : Nat) : prepare out n = resize out n := by
+  simp only [prepare, gen_outputPrep, if_true]
+
+/-- `v.resize(n)` on a vector holding `vec`: the first `n` old bytes, padded with zeros -/
+theorem toList_resize (vec : List UInt8) (n : Nat) :
+    (resize vec.toArray n).toList = vec.take n ++ List.replicate (n - vec.length) 0 := by
+  simp [resize]
+
+/-- resizing to the current size changes nothing -/
+theorem toList_resize_self (buf : List UInt8) : (resize buf.toArray buf.length).toList = buf := by
+  simp [toList_resize]
+
+/-- Aliased call `apply(key, nonce, span(vec.data(), n), vec, counter)`, for the loop as coded (each byte read
+before it is overwritten, bytes ahead untouched, `resize` keeping contents): the vector ends up holding RFC
+8439 ChaCha20 of its first `n` bytes (zero-extended if `n` exceeds its length, the bytes `resize` creates). -/
+theorem apply_aliased (key nonce vec : List UInt8) (n : Nat) (counter : UInt32)
+    (hk : key.length = 32) (hn : nonce.length = 12) :
+    applyAliased key nonce vec n counter
+      = Spec.chacha20 key nonce counter (vec.take n ++ List.replicate (n - vec.length) 0) := by
+  rw [applyAliased_eq, prepare_eq_resize, toList_resize, spec_chacha20_eq key nonce counter _ hk hn]
+
+/-- **C09, in place.** `apply(key, nonce, buf, buf, counter)` — input span and output vector the same
+storage — is RFC 8439 ChaCha20 of the buffer, for every key(32), nonce(12), counter and buffer. -/
+theorem apply_inplace (key nonce buf : List UInt8) (counter : UInt32) (hk : key.length = 32) (hn : nonce.length = 12) :
+    applyInPlace key nonce buf counter = Spec.chacha20 key nonce counter buf := by
+  rw [applyInPlace, applyAliased_eq, prepare_eq_resize, toList_resize_self, spec_chacha20_eq key nonce counter _ hk hn]
+
+/-- in place and out of place give the same bytes (any key/nonce lengths) -/
+theorem apply_inplace_eq_apply (key nonce buf : List UInt8) (counter : UInt32) :
+    applyInPlace key nonce buf counter = ChaCha20.apply key nonce buf counter := by
+  rw [applyInPlace, applyAliased_eq, prepare_eq_resize, toList_resize_self, ChaCha20.apply, applyInto_eq]
+
 /-- XOR with the same byte twice -/
 theorem xor_xor_cancel (b k : UInt8) : (b ^^^ k) ^^^ k = b := by
   rw [UInt8.xor_assoc, UInt8.xor_self, UInt8.xor_zero]
@@ -143,6 +182,11 @@ theorem involution (key nonce : List UInt8) (counter : UInt32) (x : List UInt8) 
   cases x[j]? with
   | none => rfl
   | some b => simp only [Option.map_some, Function.comp, xor_xor_cancel]
+
+/-- … also when both applications are done in place on the same buffer. -/
+theorem inplace_involution (key nonce : List UInt8) (counter : UInt32) (buf : List UInt8) :
+    applyInPlace key nonce (applyInPlace key nonce buf counter) counter = buf := by
+  rw [apply_inplace_eq_apply, apply_inplace_eq_apply, involution]
 
 /-- The same at specification level: RFC 8439 decryption is encryption. -/
 theorem spec_involution (key nonce : List UInt8) (counter : UInt32) (x : List UInt8)
